@@ -171,16 +171,51 @@ class EnumAnalysis:
             l, r = self._unset(e.left, env), self._unset(e.right, env)
             if l == 'ALL' and r == 'REL':
                 return 'NONREL'
+            if l == 'ALL' and isinstance(r, str) and r.startswith('REL~'):
+                return 'NONREL' + r[3:]
+            return None
+        if isinstance(e, ast.Call) and isinstance(e.func, ast.Attribute) and e.func.attr == 'difference' and len(e.args) == 1 and not e.keywords:
+            l, r = self._unset(e.func.value, env), self._unset(e.args[0], env)
+            if l == 'ALL' and r == 'REL':
+                return 'NONREL'
+            if l == 'ALL' and isinstance(r, str) and r.startswith('REL~'):
+                return 'NONREL' + r[3:]
             return None
         if isinstance(e, ast.ListComp) and len(e.generators) == 1 and isinstance(e.elt, ast.Name) and isinstance(e.generators[0].target, ast.Name) and e.elt.id == e.generators[0].target.id:
             g = e.generators[0]
             base = self.colset(g.iter, env)
             if base == 'ALL' and len(g.ifs) == 1:
                 t = g.ifs[0]
-                if isinstance(t, ast.Compare) and len(t.ops) == 1 and isinstance(t.left, ast.Constant) and t.left.value == ' AND_REL ' and isinstance(t.comparators[0], ast.Name) and t.comparators[0].id == g.target.id:
-                    return 'REL' if isinstance(t.ops[0], ast.In) else ('NONREL' if isinstance(t.ops[0], ast.NotIn) else None)
+                neg = False
+                if isinstance(t, ast.UnaryOp) and isinstance(t.op, ast.Not):
+                    t, neg = t.operand, True
+                # a one-line predicate of the module applied to the element: its returned test with the element substituted
+                if isinstance(t, ast.Call) and isinstance(t.func, ast.Name) and t.func.id in self.m.funcs and len(t.args) == 1 and not t.keywords and isinstance(t.args[0], ast.Name) and t.args[0].id == g.target.id:
+                    pf = self.m.funcs[t.func.id]
+                    body = [b for b in pf.node.body if not (isinstance(b, ast.Expr) and isinstance(b.value, ast.Constant))]
+                    if len(body) == 1 and isinstance(body[0], ast.Return) and body[0].value is not None and len(pf.params) == 1:
+                        import copy
+                        from ..terms import _NameSubst
+                        t = _NameSubst({pf.params[0]: ast.Name(g.target.id, ast.Load())}).visit(copy.deepcopy(body[0].value))
+                if isinstance(t, ast.Compare) and len(t.ops) == 1 and isinstance(self._const_str(t.left), str) and isinstance(t.comparators[0], ast.Name) and t.comparators[0].id == g.target.id:
+                    kind = 'REL' if isinstance(t.ops[0], ast.In) else ('NONREL' if isinstance(t.ops[0], ast.NotIn) else None)
+                    if kind and neg:
+                        kind = {'REL': 'NONREL', 'NONREL': 'REL'}[kind]
+                    if kind and self._const_str(t.left) != ' AND_REL ':
+                        # a resolved, but different, marker: the set of columns containing that other substring
+                        kind = f'{kind}~{self._const_str(t.left)!r}'
+                    return kind
             if base is not None and not g.ifs:
                 return base
+        return None
+
+    def _const_str(self, e):
+        if isinstance(e, ast.Constant):
+            return e.value
+        if isinstance(e, ast.Name):
+            vs = self.m.assigns.get(e.id, [])
+            if len(vs) == 1 and isinstance(vs[0], ast.Constant) and not self.m.rebinds_global(e.id):
+                return vs[0].value
         return None
 
     def _unset(self, e, env):
@@ -814,4 +849,298 @@ def stale_parameter_caches(fn):
             reads = [x for x in own_nodes(fn.node) if isinstance(x, ast.Name) and x.id == name and isinstance(x.ctx, ast.Load) and not any(x is y for y in ast.walk(g.test)) and not any(x is y for y in ast.walk(n))]
             if reads:
                 out.append((name, n))
+    return out
+
+
+# ---------------------------------------------------------------------------
+# casts on the way from the coded frame to the scorers
+# ---------------------------------------------------------------------------
+WIDE_DTYPES = {'np.int32', 'np.int64', 'np.intp', 'np.int_', 'int', "'int32'", "'int64'", "'int'", 'np.uint32', 'np.uint64', 'np.float64', 'np.float32', 'float', "'float64'", "'float32'",
+               'numpy.int32', 'numpy.int64', 'np.longlong', "'category'", 'str', "'str'", 'object', "'object'", "'O'"}
+NARROW_DTYPES = {'np.int8', 'np.int16', 'np.uint8', 'np.uint16', 'np.float16', 'bool', 'np.bool_', "'int8'", "'int16'", "'uint8'", "'uint16'", "'float16'", "'bool'", 'np.byte', 'np.short',
+                 'np.ubyte', 'np.ushort', "'i1'", "'i2'", "'u1'", "'u2'", 'numpy.int8', 'numpy.int16', 'numpy.uint8', 'numpy.uint16'}
+
+
+def _dtype_sources(fn, dt, par):
+    """source texts a dtype expression can stand for: itself, or - for a name bound by a loop over a literal collection - each element"""
+    if isinstance(dt, ast.Name):
+        outs = []
+        for n in ast.walk(fn.node):
+            if isinstance(n, (ast.For, ast.comprehension)) and isinstance(n.target, ast.Name) and n.target.id == dt.id and isinstance(n.iter, (ast.Tuple, ast.List, ast.Set)):
+                outs += [ast.unparse(e) for e in n.iter.elts]
+            elif isinstance(n, ast.Assign) and len(n.targets) == 1 and isinstance(n.targets[0], ast.Name) and n.targets[0].id == dt.id:
+                if isinstance(n.value, ast.IfExp):
+                    outs += [ast.unparse(n.value.body), ast.unparse(n.value.orelse)]
+                else:
+                    outs.append(ast.unparse(n.value))
+        if outs:
+            return outs
+    return [ast.unparse(dt)]
+
+
+def narrowing_casts(chk, oid, funcs, what, consequence, summary_site):
+    """every cast in `funcs` is to a type that holds all int32 values; a cast to a narrow integer type or to the dtype of ANOTHER array is reported"""
+    n_seen = 0
+    for fn in funcs:
+        par = None
+        for n in own_nodes(fn.node):
+            if not isinstance(n, ast.Call):
+                continue
+            dt = None
+            if isinstance(n.func, ast.Attribute) and n.func.attr in ('astype', 'view') and n.args:
+                dt = n.args[0]
+            elif isinstance(n.func, ast.Attribute) and n.func.attr in ('astype',) and any(k.arg == 'dtype' for k in n.keywords):
+                dt = next(k.value for k in n.keywords if k.arg == 'dtype')
+            elif (fn.module.dotted(n.func) or '').replace('numpy.', 'np.') in ('np.asarray', 'np.array', 'np.ascontiguousarray', 'np.asanyarray', 'np.require'):
+                dt = next((k.value for k in n.keywords if k.arg == 'dtype'), n.args[1] if len(n.args) > 1 else None)
+            if dt is None:
+                continue
+            n_seen += 1
+            srcs = _dtype_sources(fn, dt, par)
+            if all(s_ in WIDE_DTYPES for s_ in srcs):
+                continue
+            narrow = [s_ for s_ in srcs if s_ in NARROW_DTYPES]
+            if narrow:
+                chk.bad(oid, 'R8', fn.site(n), ast.unparse(n)[:120], f'{what} cast to {narrow[0]}: {consequence}')
+            elif isinstance(dt, ast.Attribute) and dt.attr == 'dtype':
+                chk.bad(oid, 'R8', fn.site(n), ast.unparse(n)[:120], f'{what} cast to the dtype of another array ({ast.unparse(dt)}), which can be a narrow integer type: {consequence}')
+            else:
+                chk.unsure(oid, 'R8', fn.site(n), ast.unparse(n)[:120], f'a cast to {", ".join(srcs)[:60]}: whether it can narrow the values is not decided')
+    chk.ok(oid, 'R8', summary_site, f'casts of {what}', f'{n_seen} cast(s): each to a type that holds every int32 value', inspected=max(1, n_seen))
+
+
+def vector_casts(repo, chk, oid):
+    """Category codes are int8 / int16 / int32 depending on the cardinality of the column.  On the way from the coded frame to the scorer
+    (generate_data_for_ranking, get_importances_estimate_pairwise, conduct_feature_ranking, numba_mi) a cast may only widen: a cast to a narrow
+    integer type, or to the dtype of ANOTHER array (the partner column may be an int8 column), wraps codes above the range and merges
+    categories - the score is then a function of the numeric codes, not of the co-occurrence structure."""
+    funcs = [repo.mod(IE_MOD).funcs[q] for q in ('generate_data_for_ranking', 'get_importances_estimate_pairwise', 'conduct_feature_ranking', 'numba_mi') if q in repo.mod(IE_MOD).funcs]
+    narrowing_casts(chk, oid, funcs, 'the vector is', 'codes above the range of that type wrap around, so distinct categories of a high-cardinality column are merged before scoring',
+                    'outrank/algorithms/importance_estimator.py')
+
+
+def column_overwrites(fn):
+    """Stores that replace an existing column of a frame inside `fn` (after helper expansion):
+         F[k] = <expression reading F[k]>        F[k] = ..  with k drawn from F.columns        F.loc[:, k] / F[[..]] likewise
+    Returns [(node, frame name, key source, why)]."""
+    out = []
+    par = parents(fn.node)
+    # the frames of the function: parameters annotated as DataFrame, names bound to pd.DataFrame(..), to a package call that receives a frame, or to a copy / selection of one
+    frames = {a.arg for a in fn.node.args.args if a.annotation is not None and 'DataFrame' in ast.unparse(a.annotation)}
+    changed = True
+    while changed:
+        changed = False
+        for n in own_nodes(fn.node):
+            if isinstance(n, ast.Assign) and len(n.targets) == 1 and isinstance(n.targets[0], ast.Name) and n.targets[0].id not in frames:
+                v = n.value
+                is_frame = False
+                if isinstance(v, ast.Call):
+                    d = fn.module.dotted(v.func) or ''
+                    if d in ('pandas.DataFrame', 'pd.DataFrame', 'pandas.concat', 'pandas.read_csv'):
+                        is_frame = True
+                    elif any(isinstance(a, ast.Name) and a.id in frames for a in v.args) and (d.startswith('outrank.') or (isinstance(v.func, ast.Attribute) and isinstance(v.func.value, ast.Name) and v.func.value.id in frames)):
+                        is_frame = True
+                    elif isinstance(v.func, ast.Attribute) and isinstance(v.func.value, ast.Name) and v.func.value.id in frames and v.func.attr in ('copy', 'astype', 'reset_index', 'drop', 'fillna', 'apply', 'assign'):
+                        is_frame = True
+                elif isinstance(v, ast.Subscript) and isinstance(v.value, ast.Name) and v.value.id in frames and isinstance(v.slice, (ast.List, ast.ListComp, ast.Name)):
+                    is_frame = True
+                elif isinstance(v, ast.Name) and v.id in frames:
+                    is_frame = True
+                if is_frame:
+                    frames.add(n.targets[0].id)
+                    changed = True
+    for n in own_nodes(fn.node):
+        if isinstance(n, ast.Assign) and len(n.targets) == 1:
+            t, v = n.targets[0], n.value
+        elif isinstance(n, ast.AugAssign):
+            t, v = n.target, None
+        else:
+            continue
+        if not isinstance(t, ast.Subscript):
+            continue
+        base = t.value
+        key = t.slice
+        if isinstance(base, ast.Attribute) and base.attr in ('loc', 'iloc') and isinstance(key, ast.Tuple) and len(key.elts) == 2:
+            base, key = base.value, key.elts[1]
+        if not isinstance(base, ast.Name) or base.id not in frames:
+            continue
+        F, ksrc = base.id, ast.unparse(key)
+        if isinstance(n, ast.AugAssign):
+            out.append((n, F, ksrc, 'updated in place'))
+            continue
+        reads_same = any(isinstance(x, ast.Subscript) and isinstance(x.value, ast.Name) and x.value.id == F and ast.unparse(x.slice) == ksrc and isinstance(x.ctx, ast.Load) for x in ast.walk(v))
+        from_columns = False
+        if isinstance(key, ast.Name):
+            g = par.get(n)
+            while g is not None and g is not fn.node:
+                if isinstance(g, ast.For) and isinstance(g.target, ast.Name) and g.target.id == key.id:
+                    it = g.iter
+                    if any(isinstance(x, ast.Attribute) and x.attr == 'columns' and isinstance(x.value, ast.Name) and x.value.id == F for x in ast.walk(it)):
+                        from_columns = True
+                    break
+                g = par.get(g)
+        if reads_same:
+            out.append((n, F, ksrc, f'the new value is computed from {F}[{ksrc}] and stored back under the same name'))
+        elif from_columns:
+            out.append((n, F, ksrc, f'{ksrc} runs over the existing columns of {F}'))
+    return out
+
+
+def param_deps(fn, expr, stop=()):
+    """parameters of `fn` the expression can depend on, through the local bindings of the function (every binding of a name counts;
+    helper expansion has already placed extracted helpers in the body)"""
+    binds = {}
+    for n in own_nodes(fn.node):
+        if isinstance(n, ast.Assign):
+            for t in n.targets:
+                for x in ast.walk(t):
+                    if isinstance(x, ast.Name):
+                        binds.setdefault(x.id, []).append(n.value)
+        elif isinstance(n, (ast.AugAssign, ast.AnnAssign)) and isinstance(n.target, ast.Name) and n.value is not None:
+            binds.setdefault(n.target.id, []).append(n.value)
+        elif isinstance(n, (ast.For, ast.comprehension)):
+            for x in ast.walk(n.target):
+                if isinstance(x, ast.Name):
+                    binds.setdefault(x.id, []).append(n.iter)
+        elif isinstance(n, ast.NamedExpr):
+            binds.setdefault(n.target.id, []).append(n.value)
+    params = set(fn.params)
+    out, seen, work = set(), set(), [expr]
+    while work:
+        e = work.pop()
+        for x in ast.walk(e):
+            if isinstance(x, ast.Name) and x.id not in seen and x.id not in stop:
+                seen.add(x.id)
+                if x.id in binds:
+                    # a parameter that is re-bound still starts from the caller's value when the binding reads it
+                    work += binds[x.id]
+                    if x.id in params and any(any(isinstance(y, ast.Name) and y.id == x.id for y in ast.walk(v)) for v in binds[x.id]):
+                        out.add(x.id)
+                    elif x.id in params and not binds[x.id]:
+                        out.add(x.id)
+                elif x.id in params:
+                    out.add(x.id)
+    return out
+
+
+# ---------------------------------------------------------------------------
+# constant evaluation of small predicates over the configuration (finite domains)
+# ---------------------------------------------------------------------------
+class Undecided(Exception):
+    pass
+
+
+def pred_eval(e, env, m):
+    """constant evaluation of the small predicate language of is_prior_heuristic; env: dotted source text -> value"""
+    if isinstance(e, ast.Constant):
+        return e.value
+    src = ast.unparse(e)
+    if src in env:
+        return env[src]
+    if isinstance(e, ast.Name):
+        vs = m.assigns.get(e.id, [])
+        if len(vs) == 1 and not m.rebinds_global(e.id):
+            return pred_eval(vs[0], env, m)
+        raise Undecided(src)
+    if isinstance(e, (ast.Set, ast.Tuple, ast.List)):
+        vals = [pred_eval(x, env, m) for x in e.elts]
+        return tuple(vals) if not isinstance(e, ast.Set) else frozenset(vals)
+    if isinstance(e, ast.BoolOp):
+        r = None
+        for v in e.values:
+            r = pred_eval(v, env, m)
+            if isinstance(e.op, ast.And) and not r:
+                return r
+            if isinstance(e.op, ast.Or) and r:
+                return r
+        return r
+    if isinstance(e, ast.UnaryOp) and isinstance(e.op, ast.Not):
+        return not pred_eval(e.operand, env, m)
+    if isinstance(e, ast.IfExp):
+        return pred_eval(e.body if pred_eval(e.test, env, m) else e.orelse, env, m)
+    if isinstance(e, ast.Compare) and len(e.ops) == 1:
+        a, b = pred_eval(e.left, env, m), pred_eval(e.comparators[0], env, m)
+        op = e.ops[0]
+        try:
+            if isinstance(op, ast.In):
+                return a in b
+            if isinstance(op, ast.NotIn):
+                return a not in b
+            if isinstance(op, ast.Eq):
+                return a == b
+            if isinstance(op, ast.NotEq):
+                return a != b
+            if isinstance(op, ast.Is):
+                return a is b
+            if isinstance(op, ast.IsNot):
+                return a is not b
+        except TypeError:
+            raise Undecided(src)
+    if isinstance(e, ast.Call) and not e.keywords:
+        f = e.func
+        if isinstance(f, ast.Name) and f.id in ('bool', 'len', 'set', 'frozenset', 'tuple', 'list', 'any', 'all') and len(e.args) == 1 and not isinstance(e.args[0], (ast.GeneratorExp, ast.ListComp)):
+            return {'bool': bool, 'len': len, 'set': frozenset, 'frozenset': frozenset, 'tuple': tuple, 'list': tuple, 'any': any, 'all': all}[f.id](pred_eval(e.args[0], env, m))
+        if isinstance(f, ast.Name) and f.id in ('any', 'all') and len(e.args) == 1 and isinstance(e.args[0], (ast.GeneratorExp, ast.ListComp)) and len(e.args[0].generators) == 1:
+            g = e.args[0].generators[0]
+            if isinstance(g.target, ast.Name):
+                out = []
+                for v in pred_eval(g.iter, env, m):
+                    env2 = dict(env)
+                    env2[g.target.id] = v
+                    if all(pred_eval(c, env2, m) for c in g.ifs):
+                        out.append(pred_eval(e.args[0].elt, env2, m))
+                return any(out) if f.id == 'any' else all(out)
+        if isinstance(f, ast.Attribute) and f.attr in ('startswith', 'endswith', 'lower', 'upper', 'strip', 'split', 'count', 'find', 'partition', 'rsplit') and len(e.args) <= 2:
+            recv = pred_eval(f.value, env, m)
+            if isinstance(recv, str):
+                return getattr(recv, f.attr)(*[pred_eval(a, env, m) for a in e.args])
+        if isinstance(f, ast.Name) and f.id in ('getattr',) and len(e.args) in (2, 3) and isinstance(e.args[1], ast.Constant):
+            k = f'{ast.unparse(e.args[0])}.{e.args[1].value}'
+            if k in env:
+                return env[k]
+    if isinstance(e, ast.Subscript):
+        v = pred_eval(e.value, env, m)
+        i = pred_eval(e.slice, env, m) if not isinstance(e.slice, ast.Slice) else None
+        try:
+            if i is not None:
+                return v[i]
+        except Exception:
+            raise Undecided(src)
+    raise Undecided(src)
+
+
+def pred_run(body, env, m):
+    """value returned by a straight-line / if-structured body; None when it falls through"""
+    for st in body:
+        if isinstance(st, ast.Return):
+            return ('ret', pred_eval(st.value, env, m) if st.value is not None else None)
+        if isinstance(st, ast.If):
+            r = pred_run(st.body if pred_eval(st.test, env, m) else st.orelse, env, m)
+            if r is not None:
+                return r
+        elif isinstance(st, ast.Assign) and len(st.targets) == 1 and isinstance(st.targets[0], ast.Name):
+            env[st.targets[0].id] = pred_eval(st.value, env, m)
+        elif isinstance(st, ast.Expr) and isinstance(st.value, ast.Constant):
+            continue
+        elif isinstance(st, ast.Pass):
+            continue
+        else:
+            raise Undecided(ast.unparse(st)[:60])
+    return None
+
+
+
+def heuristic_universe(repo):
+    """the heuristic names the estimator dispatches on (string constants compared in get_importances_estimate_pairwise / conduct_feature_ranking / numba_mi), plus the documented family members"""
+    ie = repo.mod(IE_MOD)
+    out = {'MI-numba-randomized', 'MI-numba-3mr', 'MI-numba', 'surrogate-SGD-SVD', 'surrogate-SGD', 'surrogate-SVM', 'surrogate-SGD-RP', 'MI', 'AMI', 'Constant', 'max-value-coverage', 'correlation-Pearson'}
+    for f in ('get_importances_estimate_pairwise', 'conduct_feature_ranking', 'numba_mi'):
+        if f in ie.funcs:
+            for n in ast.walk(ie.funcs[f].node):
+                if isinstance(n, ast.Compare):
+                    out |= {c.value for c in ast.walk(n) if isinstance(c, ast.Constant) and isinstance(c.value, str)}
+    for vs in ie.assigns.values():
+        for v in vs:
+            if isinstance(v, (ast.Set, ast.Tuple, ast.List, ast.Call)):
+                out |= {c.value for c in ast.walk(v) if isinstance(c, ast.Constant) and isinstance(c.value, str) and ('-' in c.value or c.value.isalpha()) and len(c.value) < 40}
     return out
